@@ -67,6 +67,8 @@ type vc09History struct {
 	prefix  []string // events executed before capturing starts
 	events  []string
 	par     bool // the captured part is ONE concurrent step made of the events
+	pair    bool // events = (op1, op2): op2 runs while op1 is parked inside its WAL fsync
+	ps      vc09PairStats
 	viols   []vc09Violation
 	herrs   []string
 	st      vc09Stats
@@ -361,6 +363,10 @@ func (x *vc09Exec) finish() {
 // vc09RunHistory runs h completely: execution with capture, then every image.
 func vc09RunHistory(h *vc09History) {
 	h.st.kindOK = map[string]int64{}
+	if h.pair {
+		vc09RunPair(h)
+		return
+	}
 	x, ok := vc09Start(h, true)
 	if !ok {
 		return
@@ -611,41 +617,8 @@ func (x *vc09Exec) checkImage(k int, fsop, mode string, mem *vfs.MemFS, meta vc0
 		h.violate("C09:recovered-view-differs-from-model:"+vc09LineKind(d)+":"+mode, "%s: raw content equals the reference state but the reopened store reports something else: %s", where, d)
 		return ""
 	}
-	// invariants stated by the property, on what the reopened store reports
-	for ci, f := range facts {
-		n := vc09Name[ci]
-		if f.LEOErr != nil || f.RowsErr != nil {
-			h.violate("C09:recovered-log-unreadable-after-"+mode, "%s: channel %s: LEO err=%v rows err=%v", where, n, f.LEOErr, f.RowsErr)
-			return ""
-		}
-		last := f.LastRow
-		if f.RMax > last {
-			last = f.RMax // retention floor: the rows at the tail were trimmed
-		}
-		if f.LEO != last {
-			h.violate("C09:recovered-leo-differs-from-last-stored-row:"+mode, "%s: channel %s: LEO %d, last stored row %d (retention floor %d)", where, n, f.LEO, f.LastRow, f.RMax)
-			return ""
-		}
-		switch vc09ErrClass(f.FrontierErr) {
-		case "ok":
-			fr := f.Frontier
-			if fr.LEO != f.LEO || fr.Committed > fr.LEO || (f.HasCkpt && fr.Committed != f.HW) || (fr.LEO > 0 && (fr.Manifest.LastOffset != fr.LEO || fr.TailIdentity.Index != fr.LEO)) {
-				h.violate("C09:durable-frontier-inconsistent-after-"+mode, "%s: channel %s: frontier %+v vs LEO %d HW %d", where, n, fr, f.LEO, f.HW)
-				return ""
-			}
-		case "corrupt":
-			// fails closed
-		default:
-			h.violate("C09:durable-frontier-fails-open-after-"+mode, "%s: channel %s: LoadDurableFrontier: %v", where, n, f.FrontierErr)
-			return ""
-		}
-		if f.HasCkpt && f.HW > f.LEO {
-			if ci != cleanup {
-				h.violate("C09:committed-above-leo-after-"+mode, "%s: channel %s: committed %d > LEO %d", where, n, f.HW, f.LEO)
-				return ""
-			}
-			h.st.cleanupAboveLEO++
-		}
+	if !x.invariants(where, mode, facts, cleanup) {
+		return ""
 	}
 	if cleanup >= 0 {
 		// a restore whose cleanup crashed retries the cleanup: it must converge exactly
@@ -688,6 +661,50 @@ func (x *vc09Exec) checkImage(k int, fsop, mode string, mem *vfs.MemFS, meta vc0
 		}
 	}
 	return fmt.Sprintf("point %d before %q (%s): in-flight %s recovered as state after %d steps (acked %d)", k, fsop, mode, step.Kind, matched, a)
+}
+
+// invariants checks what the property states about every recovered channel on what the
+// reopened store reports: the log end equals the last stored row, the durable frontier loads
+// consistently or fails closed, the committed watermark does not exceed the log end
+// (cleanup: channel whose restore cleanup is in progress, -1 for none).
+func (x *vc09Exec) invariants(where, mode string, facts [2]vc09Facts, cleanup int) bool {
+	h := x.h
+	for ci, f := range facts {
+		n := vc09Name[ci]
+		if f.LEOErr != nil || f.RowsErr != nil {
+			h.violate("C09:recovered-log-unreadable-after-"+mode, "%s: channel %s: LEO err=%v rows err=%v", where, n, f.LEOErr, f.RowsErr)
+			return false
+		}
+		last := f.LastRow
+		if f.RMax > last {
+			last = f.RMax // retention floor: the rows at the tail were trimmed
+		}
+		if f.LEO != last {
+			h.violate("C09:recovered-leo-differs-from-last-stored-row:"+mode, "%s: channel %s: LEO %d, last stored row %d (retention floor %d)", where, n, f.LEO, f.LastRow, f.RMax)
+			return false
+		}
+		switch vc09ErrClass(f.FrontierErr) {
+		case "ok":
+			fr := f.Frontier
+			if fr.LEO != f.LEO || fr.Committed > fr.LEO || (f.HasCkpt && fr.Committed != f.HW) || (fr.LEO > 0 && (fr.Manifest.LastOffset != fr.LEO || fr.TailIdentity.Index != fr.LEO)) {
+				h.violate("C09:durable-frontier-inconsistent-after-"+mode, "%s: channel %s: frontier %+v vs LEO %d HW %d", where, n, fr, f.LEO, f.HW)
+				return false
+			}
+		case "corrupt":
+			// fails closed
+		default:
+			h.violate("C09:durable-frontier-fails-open-after-"+mode, "%s: channel %s: LoadDurableFrontier: %v", where, n, f.FrontierErr)
+			return false
+		}
+		if f.HasCkpt && f.HW > f.LEO {
+			if ci != cleanup {
+				h.violate("C09:committed-above-leo-after-"+mode, "%s: channel %s: committed %d > LEO %d", where, n, f.HW, f.LEO)
+				return false
+			}
+			h.st.cleanupAboveLEO++
+		}
+	}
+	return true
 }
 
 // partialCleanup checks an image captured between the batches of DiscardForRestore on
@@ -766,12 +783,13 @@ func TestVerifC09(t *testing.T) {
 			Prefix []string `json:"prefix"`
 			Events []string `json:"events"`
 			Par    bool     `json:"par"`
+			Pair   bool     `json:"pair"`
 		}
 		if err := json.Unmarshal(rf.Replay, &pl); err != nil {
 			r.HarnessError("bad replay payload: %v", err)
 			return
 		}
-		hs = append(hs, &vc09History{name: pl.Name, prefix: pl.Prefix, events: pl.Events, par: pl.Par})
+		hs = append(hs, &vc09History{name: pl.Name, prefix: pl.Prefix, events: pl.Events, par: pl.Par, pair: pl.Pair})
 	} else {
 		for _, seq := range vc09Sequences(alphabet, maxLen) {
 			hs = append(hs, &vc09History{name: "seq", events: seq})
@@ -786,6 +804,8 @@ func TestVerifC09(t *testing.T) {
 		if r.Thorough() {
 			hs = append(hs, &vc09History{name: "paging-then-append", prefix: []string{"bulk:A:600", "bulk:A:500"}, events: []string{"dis:A", "xhw:A"}})
 		}
+		// op2 issued while op1's commit is parked inside its WAL fsync
+		hs = append(hs, vc09PairHistories(r.Thorough())...)
 	}
 	if only := os.Getenv("VC09_ONLY"); only != "" {
 		var keep []*vc09History
@@ -796,17 +816,44 @@ func TestVerifC09(t *testing.T) {
 		}
 		hs = keep
 	}
-	total := len(hs)
+	total, totalPairs := 0, 0
+	for _, h := range hs {
+		if h.pair {
+			totalPairs++
+		} else {
+			total++
+		}
+	}
 	// VERIF_SEED only permutes the order in which histories are executed
 	rng := rand.New(rand.NewSource(r.Seed()))
 	rng.Shuffle(len(hs), func(i, j int) { hs[i], hs[j] = hs[j], hs[i] })
-	// the few expensive special histories go first so that they spread over the shards
-	sort.SliceStable(hs, func(i, j int) bool { return hs[i].name != "seq" && hs[j].name == "seq" })
+	// the expensive histories go first; every history goes to the currently lightest shard
+	// (estimated cost; deterministic given the seed)
+	cost := func(h *vc09History) int {
+		switch {
+		case strings.HasPrefix(h.name, "paging"):
+			return 400
+		case h.par:
+			return 30
+		case h.pair:
+			return 6
+		}
+		return 1 + 2*len(h.events)
+	}
+	sort.SliceStable(hs, func(i, j int) bool { return cost(hs[i]) > cost(hs[j]) })
 	shardI, shardN := r.Shard()
 	if shardN > 1 {
+		load := make([]int, shardN)
 		var mine []*vc09History
-		for i, h := range hs {
-			if i%shardN == shardI {
+		for _, h := range hs {
+			best := 0
+			for k := 1; k < shardN; k++ {
+				if load[k] < load[best] {
+					best = k
+				}
+			}
+			load[best] += cost(h)
+			if best == shardI {
 				mine = append(mine, h)
 			}
 		}
@@ -820,36 +867,64 @@ func TestVerifC09(t *testing.T) {
 	deadline := r.Deadline()
 	var capped atomic.Bool
 	var done atomic.Int64
-	work := make(chan *vc09History, len(hs))
+	// pair histories mostly wait (classification bound): they get their own, wider pool
+	var plain, pairs []*vc09History
 	for _, h := range hs {
-		work <- h
+		if h.pair {
+			pairs = append(pairs, h)
+		} else {
+			plain = append(plain, h)
+		}
 	}
-	close(work)
 	var wg sync.WaitGroup
-	for w := 0; w < workers; w++ {
-		wg.Add(1)
-		go func() {
-			defer wg.Done()
-			for h := range work {
-				if !deadline.IsZero() && time.Now().After(deadline) {
-					capped.Store(true)
-					continue
+	pool := func(list []*vc09History, n int) {
+		work := make(chan *vc09History, len(list))
+		for _, h := range list {
+			work <- h
+		}
+		close(work)
+		for w := 0; w < n; w++ {
+			wg.Add(1)
+			go func() {
+				defer wg.Done()
+				for h := range work {
+					if !deadline.IsZero() && time.Now().After(deadline) {
+						capped.Store(true)
+						continue
+					}
+					if perr := ev.Recover(func() { vc09RunHistory(h) }); perr != nil {
+						h.herr("harness panic: %v", perr)
+					}
+					done.Add(1)
 				}
-				if perr := ev.Recover(func() { vc09RunHistory(h) }); perr != nil {
-					h.herr("harness panic: %v", perr)
-				}
-				done.Add(1)
-			}
-		}()
+			}()
+		}
 	}
+	pool(plain, workers)
+	pool(pairs, 5*workers)
 	wg.Wait()
 
 	// ---- merge, deterministically
 	sort.Slice(hs, func(i, j int) bool { return hs[i].label() < hs[j].label() })
 	var tot vc09Stats
 	tot.kindOK = map[string]int64{}
+	var pt vc09PairStats
 	samples := 0
+	pairSamples := map[string]int{}
+	pairsDone, pairsMine := int64(0), int64(0)
 	for _, h := range hs {
+		if h.pair {
+			pt.add(&h.ps)
+			pairsMine++
+			pairsDone += h.ps.pairs
+			if h.sample != nil {
+				k := fmt.Sprint(h.sample["op2_class"], h.sample["op2_changes_state"])
+				if pairSamples[k] < 1 && len(pairSamples) < 5 && (h.sample["op2_acknowledged"] != "" || h.sample["op2_changes_state"] == true) {
+					pairSamples[k]++
+					r.Sample(h.sample)
+				}
+			}
+		}
 		tot.images += h.st.images
 		tot.inflight += h.st.inflight
 		tot.insideWalBatch += h.st.insideWalBatch
@@ -873,7 +948,7 @@ func TestVerifC09(t *testing.T) {
 		}
 		for _, v := range h.viols {
 			r.Violation(ev.Violation{Fingerprint: v.FP, Message: v.Msg, System: "crash",
-				Replay: map[string]any{"name": h.name, "prefix": h.prefix, "events": h.events, "par": h.par}})
+				Replay: map[string]any{"name": h.name, "prefix": h.prefix, "events": h.events, "par": h.par, "pair": h.pair}})
 			if r.Replay() != nil {
 				r.MarkReplayReproduced()
 			}
@@ -886,11 +961,42 @@ func TestVerifC09(t *testing.T) {
 	exhaustive := !capped.Load() && int(done.Load()) == len(hs)
 	r.Section(ev.Section{Name: "crash", Kind: "crash", Evaluations: tot.images, Distinct: tot.inflight, Validated: tot.images,
 		Exhaustive: exhaustive, Outcomes: 2, WallS: time.Since(start).Seconds(),
-		Bounds: map[string]any{"alphabet": alphabet, "max_history_length": maxLen, "channels": 2, "histories_total": total, "histories_this_shard": len(hs),
+		Bounds: map[string]any{"alphabet": alphabet, "max_history_length": maxLen, "channels": 2, "histories_total": total, "histories_this_shard": int64(len(hs)) - pairsMine,
 			"special_histories": "group1, group2, paging (+ paging-then-append in thorough)", "images_per_point": "kill + power-loss"},
 		Note: "every mutating filesystem call made while a history runs is a crash point; both images of every point are evaluated (images with byte-identical disk content are recovered by the real Open once, see counters); " +
 			"evaluations = images reopened, distinct_nontrivial = images captured strictly inside a mutation (acknowledged < started)"})
-	r.Count("histories", int64(done.Load()))
+	r.Section(ev.Section{Name: "ack-while-peer-commit-in-fsync", Kind: "crash", Evaluations: pt.images, Distinct: pt.imagesOp1InFlight, Validated: pt.images,
+		Exhaustive: exhaustive && pairsDone == pairsMine, Outcomes: 2, WallS: time.Since(start).Seconds(),
+		Bounds: map[string]any{"prefix_states": vc09PairPrefixes, "op1": vc09PairOp1, "op2": vc09PairOp2, "pairs_total": totalPairs, "pairs_this_shard": pairsMine,
+			"snapshots_per_pair": "op1 parked inside its WAL fsync (batch visible, not durable) / the instant op2 returned / idle; kill + power-loss image each",
+			"op2_waits_classification_bound": fmt.Sprintf("%v for an op2 that changes nothing, %v for an op2 that needs a commit of its own (classification only, never an oracle)", vc09PairWaitNoop, vc09PairWaitChanging)},
+		Note: "every ordered pair (op1, op2) on one channel: op1 is parked inside the fsync of its commit (crashfs.HoldNextSync), op2 runs to completion or is classified as waiting for op1; " +
+			"everything op2 acknowledged must be present in the power image taken at the instant it returned; evaluations = images reopened, distinct_nontrivial = images taken while op1 was still inside its commit"})
+	r.Count("histories", int64(done.Load())-pairsDone)
+	r.Count("pairs_executed", pt.pairs)
+	r.Count("pairs_op1_parked_inside_wal_fsync", pt.parked)
+	r.Count("pairs_op1_not_parked", pt.notParked)
+	r.Count("pairs_op2_returned_while_op1_parked", pt.returnedWhileParked)
+	r.Count("pairs_op2_waited_for_op1", pt.waited)
+	r.Count("pairs_op2_not_applicable_in_state", pt.op2NotApplicable)
+	r.Count("pairs_op2_refused_as_predicted", pt.refused)
+	r.Count("pairs_op2_acknowledged_state_change", pt.changingAcks)
+	r.Count("pairs_op2_acknowledged_without_writing", pt.noopAcks)
+	r.Count("pairs_op2_acknowledged_without_writing_while_op1_parked", pt.noopAcksWhileParked)
+	r.Count("pairs_op2_acknowledged_without_writing_promise_nontrivial", pt.noopAcksNontrivial)
+	r.Count("pairs_op2_acknowledged_without_writing_promise_needs_op1_durable", pt.noopAcksNeedingOp1)
+	r.Count("pair_images_reopened", pt.images)
+	r.Count("pair_images_while_op1_inside_its_commit", pt.imagesOp1InFlight)
+	r.Count("pair_distinct_disk_contents_recovered_by_the_real_open", pt.reopened)
+	r.Count("pair_power_images_at_park_instant_without_op1", pt.parkPowerLacksOp1)
+	r.Count("pair_kill_images_at_park_instant_with_op1", pt.parkKillHasOp1)
+	r.Count("info_plain_LoadCheckpoint_returned_visible_not_yet_durable_hw", pt.plainReadSawUnsyncedHW)
+	for _, k := range vc09SortedKeys(pt.op1Parked) {
+		r.Count("pair_op1_parked_"+k, pt.op1Parked[k])
+	}
+	for _, k := range vc09SortedKeys(pt.op2Acked) {
+		r.Count("pair_op2_acknowledged_"+k, pt.op2Acked[k])
+	}
 	r.Count("steps_executed", tot.steps)
 	r.Count("crash_points_seen", tot.points)
 	r.Count("images_reopened", tot.images)
@@ -922,10 +1028,33 @@ func TestVerifC09(t *testing.T) {
 			}
 		}
 		r.Guard("every-mutation-kind-accepted", len(missing) == 0, "kinds never accepted with a state change: %v", missing)
+		r.Guard("peer-commit-visible-but-not-durable", pt.parkPowerLacksOp1 >= 1 && pt.parkKillHasOp1 >= 1 && pt.notParked == 0,
+			"%d pairs parked op1 inside its WAL fsync (%d not parked): at that instant %d power images lacked op1 and %d kill images contained it", pt.parked, pt.notParked, pt.parkPowerLacksOp1, pt.parkKillHasOp1)
+		r.Guard("op2-acknowledged-while-peer-parked", pt.noopAcksWhileParked >= 1 && pt.noopAcksNontrivial >= 1,
+			"%d acknowledgements without a write returned while op1 was parked; %d no-write acknowledgements promised something an empty store does not satisfy", pt.noopAcksWhileParked, pt.noopAcksNontrivial)
+		r.Guard("op2-promise-depending-on-the-parked-commit", pt.noopAcksNeedingOp1 >= 1 && pt.waited >= 1,
+			"%d no-write acknowledgements promised something that only holds once op1 is durable (each checked against the power image at its return); %d pairs waited for op1", pt.noopAcksNeedingOp1, pt.waited)
+		var lacking []string
+		for _, e := range vc09PairOp1 {
+			k, _, _ := vc09ParseEvent(e)
+			if k == "adp" {
+				k = "adopt"
+			}
+			if pt.op1Parked[k] == 0 {
+				lacking = append(lacking, "op1 "+k)
+			}
+		}
+		for _, k := range []string{"ckb", "ckp", "fhw", "fhb", "rty", "leo", "fro", "app", "xhw", "fol", "rep", "trn", "adopt"} {
+			if pt.op2Acked[k] == 0 {
+				lacking = append(lacking, "op2 "+k)
+			}
+		}
+		r.Guard("every-pair-operation-exercised", len(lacking) == 0, "never parked / never acknowledged: %v", lacking)
 	}
 	r.Assume("crash model: process kill = every completed write visible; power loss = only synced data (and synced directory entries) survive; torn sectors inside one unsynced write are covered only at these two extremes")
 	r.Assume("the data directory itself is durable before the store first opens in it")
 	r.Assume("reference states are the boundaries of the same execution (raw key/value content) and a hand-written semantic model checked against the live store at every boundary")
+	r.Assume("ack-while-peer-commit-in-fsync: op2 is issued after op1's batch became visible, so a recovered state containing op2 without op1 is not a prefix of the issue order; the acknowledgements of LEOWithError (\"durable log end offset\") and LoadDurableFrontier are treated as durability reports, the plain LoadCheckpoint read (unlocked by design) is not")
 	r.Assume("an image captured between the batches of DiscardForRestore (restore-failure cleanup, before the node is activated) may report committed > LEO for the channel being wiped; required instead: every page batch atomic, LoadDurableFrontier loads consistently or fails closed, and a retried cleanup converges to exactly the completed cleanup")
 	if os.Getenv("VC09_VERBOSE") != "" {
 		t.Logf("histories=%d images=%d inflight=%d wall=%.1fs", done.Load(), tot.images, tot.inflight, time.Since(start).Seconds())
